@@ -17,7 +17,8 @@
 //! gzi          `c:u` pairs joined by `,` (`_` = empty index)
 //! ops          `r<n>` read, `x<n>` read_exact, `s<n>` std default read_exact, `f` fill_buf,
 //!              `c<n>` consume, `k<c>:<u>` seek(virtual position), `u<off>` seek by uncompressed
-//!              offset through the index
+//!              offset through the index, `a<n>` read to the end with an n-byte buffer (read until a
+//!              call returns 0 bytes)
 //!
 //! The verdict column is the property evaluated against a flat `Vec<u8>` reference with a window
 //! (see `Flat`): bytes returned by every call, the flat offset denoted by virtual_position() after
@@ -179,7 +180,12 @@ enum Op {
     Consume(usize),
     Seek(u64, u16),
     SeekU(u64),
+    /// read to the end: `read` with an n-byte buffer until a call returns 0
+    ReadAll(usize),
 }
+
+/// cap on what one read-to-end may collect (a reader that keeps returning data is a failure)
+const READ_ALL_CAP: usize = 1 << 25;
 
 fn fmt_ops(ops: &[Op]) -> String {
     if ops.is_empty() {
@@ -194,6 +200,7 @@ fn fmt_ops(ops: &[Op]) -> String {
             Op::Consume(n) => format!("c{n}"),
             Op::Seek(c, u) => format!("k{c}:{u}"),
             Op::SeekU(p) => format!("u{p}"),
+            Op::ReadAll(n) => format!("a{n}"),
         })
         .collect::<Vec<_>>()
         .join(",")
@@ -217,6 +224,7 @@ fn parse_ops(s: &str) -> Vec<Op> {
                     Op::Seek(c.parse().unwrap(), u.parse().unwrap())
                 }
                 "u" => Op::SeekU(t.parse().unwrap()),
+                "a" => Op::ReadAll(t.parse().unwrap()),
                 _ => panic!("op {p}"),
             }
         })
@@ -362,6 +370,22 @@ impl<'a> Flat<'a> {
                 let e = self.exact_loop(n);
                 assert_eq!(enough, matches!(e, Exp::Bytes(_)), "flat closed form");
                 e
+            }
+            Op::ReadAll(n) => {
+                let start = self.off;
+                let mut out = Vec::new();
+                loop {
+                    let b = self.read(n);
+                    if b.is_empty() {
+                        break;
+                    }
+                    out.extend_from_slice(&b);
+                }
+                if n > 0 {
+                    // closed form: everything from the current offset on
+                    assert!(out == self.l.d[start..] && self.off == self.l.d.len(), "flat read-to-end closed form");
+                }
+                Exp::Bytes(out)
             }
             Op::Seek(c, u) => {
                 self.seek(c, u);
@@ -552,6 +576,21 @@ fn apply(r: &mut dyn R3, op: Op, ix: &gzi::Index) -> Got {
                 Got::Bytes(buf)
             }
             Op::Fill => Got::Bytes(r.fill()?),
+            Op::ReadAll(n) => {
+                let mut buf = vec![SENTINEL; n];
+                let mut out = Vec::new();
+                loop {
+                    let amt = r.read(&mut buf)?;
+                    if amt == 0 {
+                        break;
+                    }
+                    out.extend_from_slice(&buf[..amt]);
+                    if out.len() > READ_ALL_CAP {
+                        return Err(io::Error::other("read-to-end does not terminate"));
+                    }
+                }
+                Got::Bytes(out)
+            }
             Op::Consume(n) => {
                 r.consume(n);
                 Got::Unit
@@ -642,6 +681,7 @@ fn run_hist(c: &Case) -> Obs {
                 Op::Read(_) => "read-bytes-differ-from-flat",
                 Op::Exact(_) | Op::ExactStd(_) => "read-exact-differs-from-flat",
                 Op::Fill => "fill-buf-differs-from-flat",
+                Op::ReadAll(_) => "read-to-end-differs-from-flat",
                 Op::Consume(_) => "consume",
                 Op::Seek(..) => "seek-result",
                 Op::SeekU(_) => "gzi-seek-result",
@@ -1029,7 +1069,14 @@ fn gen_ops(rng: &mut Rng, kind: &str, l: &Layout, index: &[(u64, u64)], nops: us
     let mut tries = 0;
     while ops.len() < nops && tries < nops * 6 {
         tries += 1;
-        let op = match rng.below(20) {
+        let op = match rng.below(22) {
+            20 | 21 => Op::ReadAll(match rng.below(6) {
+                0 => 1,
+                1 => *rng.pick(&[65535usize, 65536, 70000]),
+                2 => 4096,
+                3 => gen_size(rng, l, flat.win),
+                _ => rng.range(1, 300) as usize,
+            }),
             0..=4 => Op::Read(gen_size(rng, l, flat.win)),
             5..=7 => {
                 let n = gen_size(rng, l, flat.win);
@@ -1166,7 +1213,35 @@ fn generate(rng: &mut Rng, tier: &str, w: &mut CaseWriter) {
             &l6.full_index(),
             &[Op::Read(65535), Op::Read(65535), Op::Consume(70000), Op::Read(65536), Op::SeekU(7 + 65536), Op::Fill, Op::SeekU(7), Op::Exact(65537)],
         );
+        // read to the end after seeks to every boundary form, small and direct-path buffers
+        push_hist(
+            w,
+            "rd",
+            &fs4,
+            &ix4,
+            &[
+                Op::Seek(t[0].0, 3),
+                Op::ReadAll(5),
+                Op::Seek(t[1].0, 0),
+                Op::ReadAll(70000),
+                Op::ReadAll(1),
+                Op::Seek(t[4].0, 65535),
+                Op::ReadAll(65536),
+                Op::Seek(t[5].0, 0),
+                Op::ReadAll(3),
+                Op::Seek(l4.file_len, 0),
+                Op::ReadAll(0),
+                Op::ReadAll(9),
+                Op::SeekU(12),
+                Op::ReadAll(0),
+                Op::ReadAll(65535),
+            ],
+        );
+        push_hist(w, "ix", &fs4, &ix4, &[Op::SeekU(6), Op::ReadAll(4), Op::SeekU(12 + 65536), Op::ReadAll(70000), Op::SeekU(0), Op::ReadAll(65536)]);
+        push_hist(w, "mt", &fs4, &ix4, &[Op::Seek(t[3].0, 5), Op::ReadAll(3), Op::SeekU(7), Op::ReadAll(70000)]);
+        push_hist(w, "rd", &fs2, &l2.full_index(), &[Op::Seek(l2.tbl[1].0, 2), Op::ReadAll(70000), Op::ReadAll(70000), Op::Seek(0, 7), Op::ReadAll(2)]);
         // empty file / marker only
+        push_hist(w, "rd", &[], &[], &[Op::ReadAll(3), Op::ReadAll(70000)]);
         push_hist(w, "rd", &[], &[], &[Op::Read(3), Op::Seek(0, 0), Op::Fill, Op::Exact(0), Op::Exact(1)]);
         push_hist(w, "rd", &[eof.clone()], &[], &[Op::Read(3), Op::Seek(0, 0), Op::Fill, Op::SeekU(0), Op::Read(70000)]);
     }
@@ -1182,7 +1257,20 @@ fn generate(rng: &mut Rng, tier: &str, w: &mut CaseWriter) {
             _ => "mt",
         };
         let nops = rng.range(2, 40) as usize;
-        let ops = gen_ops(rng, kind, &l, &ix, nops);
+        let mut ops = gen_ops(rng, kind, &l, &ix, nops);
+        if i % 3 == 0 {
+            // end with: seek to a byte boundary, read to the end (c02_seek_then_read_to_end)
+            if kind == "ix" {
+                ops.push(Op::SeekU(gen_offset(rng, &l)));
+            } else {
+                let (c, u) = gen_seek_target(rng, &l);
+                ops.push(Op::Seek(c, u));
+            }
+            ops.push(Op::ReadAll(*rng.pick(&[1usize, 7, 4096, 65535, 65536, 70000])));
+            if rng.chance(1, 2) {
+                ops.push(Op::Read(*rng.pick(&[1usize, 70000])));
+            }
+        }
         push_hist(w, kind, &fs, &ix, &ops);
     }
     // ---- writer histories
